@@ -17,81 +17,92 @@ def edgeCross (e : Pt × Pt) : Rat := e.1.x * e.2.y - e.2.x * e.1.y
 /-- The coded area is minus one half of the textbook shoelace sum `Σ (x_i y_{i+1} − x_{i+1} y_i)`:
     cycles that are counter-clockwise in a y-up frame (positive shoelace sum) get a negative area. -/
 theorem area_eq_neg_shoelace (ps : List Pt) : area ps = -(1/2 : Rat) * shoelace2 ps := by
-  sorry
+  rw [area_eq_sum, shoelace2_eq_sum]
 
 theorem shoelace2_eq_sum_cyclicPairs (ps : List Pt) :
     shoelace2 ps = ((cyclicPairs ps).map edgeCross).sum := by
-  sorry
+  exact shoelace2_eq_sum ps
 
 /-- reversing the cycle changes the sign of the area -/
 theorem area_reverse (ps : List Pt) : area ps.reverse = - area ps := by
-  sorry
+  exact area_reverse' ps
 
 theorem areaSign_reverse (ps : List Pt) : areaSign ps.reverse = - areaSign ps := by
-  sorry
+  unfold areaSign
+  rw [area_reverse', ratSign_neg]
 
 /-- cyclic shifts leave the area unchanged -/
 theorem area_rotate (ps : List Pt) (k : Nat) : area (ps.rotateLeft k) = area ps := by
-  sorry
+  exact area_rotate' ps k
 
 theorem area_translate (d : Pt) (ps : List Pt) : area (translate d ps) = area ps := by
-  sorry
+  exact area_map_translate d ps
 
 /-- the area scales with the square of a length factor -/
 theorem area_scale (s : Rat) (ps : List Pt) : area (scale s ps) = s * s * area ps := by
-  sorry
+  exact area_map_scale s ps
 
 /-- next-vertex navigation walks the cycle in the sense given by the area sign -/
 theorem nextIdx_of_sign_pos (ps : List Pt) (i : Nat) (h : areaSign ps = 1) (hi : i < ps.length) :
     nextIdx ps i = (i + 1) % ps.length := by
-  sorry
+  have _ := hi -- not needed: the equation holds for every `i`
+  unfold nextIdx
+  rw [h, pyMod_add_one]
 
 theorem nextIdx_of_sign_neg (ps : List Pt) (i : Nat) (h : areaSign ps = -1) (hi : i < ps.length) :
     nextIdx ps i = (i + ps.length - 1) % ps.length := by
-  sorry
+  unfold nextIdx
+  rw [h, pyMod_sub_one _ _ (by omega)]
 
 theorem prevIdx_of_sign_pos (ps : List Pt) (i : Nat) (h : areaSign ps = 1) (hi : i < ps.length) :
     prevIdx ps i = (i + ps.length - 1) % ps.length := by
-  sorry
+  unfold prevIdx
+  rw [h, Int.sub_eq_add_neg, pyMod_sub_one _ _ (by omega)]
 
 theorem prevIdx_of_sign_neg (ps : List Pt) (i : Nat) (h : areaSign ps = -1) (hi : i < ps.length) :
     prevIdx ps i = (i + 1) % ps.length := by
-  sorry
+  have _ := hi -- not needed: the equation holds for every `i`
+  unfold prevIdx
+  rw [h, Int.sub_neg, pyMod_add_one]
 
 /-- next and previous are mutually inverse on every cycle (for area sign 0 both are the identity) -/
 theorem next_prev (ps : List Pt) (i : Nat) (hi : i < ps.length) :
     nextIdx ps (prevIdx ps i) = i ∧ prevIdx ps (nextIdx ps i) = i := by
-  sorry
+  unfold nextIdx prevIdx
+  exact ⟨pyMod_cancel i _ _ hi, pyMod_cancel' i _ _ hi⟩
 
 /-- the perimeter terms are the squared lengths of the closed cycle's segments -/
 theorem perimeterSq_of_sign_pos (ps : List Pt) (h : areaSign ps = 1) :
     perimeterSq ps = (cyclicPairs ps).map fun e => distSq e.1 e.2 := by
-  sorry
+  exact perimeterSq_pos ps h
 
 /-- with negative area sign the same segments are visited from the other end
     (`distSq` is symmetric, so the multiset of squared lengths is that of the closed cycle). -/
 theorem perimeterSq_of_sign_neg_perm (ps : List Pt) (h : areaSign ps = -1) :
     (perimeterSq ps).Perm ((cyclicPairs ps).map fun e => distSq e.1 e.2) := by
-  sorry
+  exact perimeterSq_neg ps h
 
 theorem distSq_translate (d p q : Pt) :
     distSq ⟨p.x + d.x, p.y + d.y⟩ ⟨q.x + d.x, q.y + d.y⟩ = distSq p q := by
-  sorry
+  unfold distSq
+  ring
 
 /-- squared lengths scale with the square of the factor (so lengths scale with its absolute value) -/
 theorem distSq_scale (s : Rat) (p q : Pt) :
     distSq ⟨s * p.x, s * p.y⟩ ⟨s * q.x, s * q.y⟩ = s * s * distSq p q := by
-  sorry
+  unfold distSq
+  ring
 
 /-- the multiset of segments of the closed cycle is invariant under cyclic shifts … -/
 theorem cyclicPairs_rotate_perm (ps : List Pt) (k : Nat) :
     (cyclicPairs (ps.rotateLeft k)).Perm (cyclicPairs ps) := by
-  sorry
+  rw [rotateLeft_eq_rotate, cyclicPairs_rotate]
+  exact List.rotate_perm _ _
 
 /-- … and under reversal up to swapping each pair -/
 theorem cyclicPairs_reverse_perm (ps : List Pt) :
     (cyclicPairs ps.reverse).Perm ((cyclicPairs ps).map Prod.swap) := by
-  sorry
+  exact cyclicPairs_reverse_perm' ps
 
 /-- additivity: if the directed edges of the cells are the outline's directed edges plus pairs of
     opposite edges (the combinatorial content of "hole-free tissue, consistently oriented cells"),
@@ -99,15 +110,27 @@ theorem cyclicPairs_reverse_perm (ps : List Pt) :
 theorem area_additive (cells : List (List Pt)) (outline : List Pt) (inner : List (Pt × Pt))
     (h : ((cells.map cyclicPairs).flatten).Perm (cyclicPairs outline ++ inner ++ inner.map Prod.swap)) :
     (cells.map area).sum = area outline := by
-  sorry
+  exact area_additive' cells outline inner h
 
 /-- a cell's neighbours are exactly the other cells sharing a vertex with it -/
 theorem neighbors_spec (m : Mesh) (c : Cell) (d : Id) :
     d ∈ m.neighbors c ↔ d ≠ c.id ∧ ∃ v ∈ c.verts, d ∈ m.ownCells v := by
-  sorry
+  exact mem_neighbors m c d
 
 /-! non-vacuity: a concrete counter-clockwise unit square -/
 example : areaSign [⟨0,0⟩, ⟨1,0⟩, ⟨1,1⟩, ⟨0,1⟩] = -1 ∧ shoelace2 [⟨0,0⟩, ⟨1,0⟩, ⟨1,1⟩, ⟨0,1⟩] = 2 := by
+  decide +kernel
+
+/-! non-vacuity of `areaSign ps = 1`: the same square walked clockwise -/
+example : areaSign [⟨0,0⟩, ⟨0,1⟩, ⟨1,1⟩, ⟨1,0⟩] = 1 := by decide +kernel
+
+/-! non-vacuity of the hypothesis of `area_additive`: two unit squares sharing the edge (1,0)–(1,1),
+    outline = the 2×1 rectangle with the two shared vertices kept on it -/
+example :
+    (([[⟨0,0⟩, ⟨1,0⟩, ⟨1,1⟩, ⟨0,1⟩], [⟨1,0⟩, ⟨2,0⟩, ⟨2,1⟩, ⟨1,1⟩]] : List (List Pt)).map
+        cyclicPairs).flatten.Perm
+      (cyclicPairs [⟨0,0⟩, ⟨1,0⟩, ⟨2,0⟩, ⟨2,1⟩, ⟨1,1⟩, ⟨0,1⟩] ++ [(⟨1,0⟩, ⟨1,1⟩)]
+        ++ ([(⟨1,0⟩, ⟨1,1⟩)] : List (Pt × Pt)).map Prod.swap) := by
   decide +kernel
 
 end Forsys
